@@ -12,14 +12,6 @@ quoting modes.
 namespace C06
 open C06.Gen
 
-/-- more facts about the regenerated classes of `_URL_RE`, needed when the scheme / authority groups do
-    not match -/
-theorem stops_ok2 :
-    notIn schemeStop 47 = false ∧ notIn schemeStop 63 = false ∧ notIn schemeStop 35 = false ∧
-    schemeStop.all (fun c => c == 58 || c == 47 || c == 63 || c == 35) = true := by decide
-
-/-- `scheme:` or nothing -/
-def spart (scheme : Text) : Text := if scheme ≠ [] then scheme ++ [58] else []
 /-- `//` or nothing -/
 def slpart (sl : Bool) : Text := if sl then [47, 47] else []
 
